@@ -51,7 +51,7 @@ def execute(case, script=None):
     ctx = RunCtx(PROP, view)
     ctx.W = game_W(view)
     ctx.declare_probes('pair_at_exactly_m', 'pair_at_m_minus_1_at_end', 'pair_sampled_beyond_m', 'unknown_pair_at_end',
-                       'episode_from_absorbing_start', 'learner_reused', 'discount_close_to_one', 'explicit_state_list_with_unreachable_states', 'rerun_after_abort', 'model_updated_in_place', 'nested_run', 'explicit_state_list_permuted')
+                       'episode_from_absorbing_start', 'learner_reused', 'discount_close_to_one', 'explicit_state_list_with_unreachable_states', 'rerun_after_abort', 'model_updated_in_place', 'nested_run', 'first_result_checked_after_reuse', 'explicit_state_list_permuted')
     sched = make_scheduler(case, script, ctx)
     try:
         return _execute(rm, view, case['cfg'], ctx, sched)
@@ -244,11 +244,12 @@ def _execute(rm, view, cfg, ctx, sched):
                     state['main'] = False
                     W0, ctx.W = ctx.W, game_W(sview)
                     _first = learner.train_on(smdp_)
-                    for _s in range(view.N):          # the first result is used before the object is used again
-                        try:
+                    for _s in range(0, view.N, 2):    # the first result is used before the object is used again - at every other
+                        try:                          # state; the rest of its policy is looked at after the second run (below)
                             _first.policy.action_dist(sk[_s])
                         except Exception:
                             pass
+                    state['first'] = _first
                     ctx.W = W0
                     state['main'] = True
             hookN = None
@@ -290,6 +291,25 @@ def _execute(rm, view, cfg, ctx, sched):
     except (KeyError, TypeError, AttributeError) as e:
         raise Violation('result-shape', f"q_values malformed: {type(e).__name__}: {e}")
     oracle(Qr, "returned", res.policy)
+    first = state.get('first')
+    if first is not None:
+        # two results alive: the FIRST result of the reused learner must still be greedy for its own Q-values
+        try:
+            Q1 = {sid[s_]: {aid[a]: float(v) for a, v in av.items()} for s_, av in first.q_values.items()}
+        except (KeyError, TypeError, AttributeError) as e:
+            raise Violation('result-shape', f"first result's q_values malformed: {type(e).__name__}: {e}")
+        ctx.probe('first_result_checked_after_reuse')
+        for s_ in sorted(Q1):
+            try:
+                d = {aid[a]: p for a, p in first.policy.action_dist(sk[s_]).items()}
+            except Exception as e:
+                raise Violation('policy', f"first result's policy undefined at {s_} after the learner was used again: {type(e).__name__}: {e}")
+            mx = max(Q1[s_].values())
+            am = {a for a in Q1[s_] if Q1[s_][a] == mx}
+            sup = {a for a, p in d.items() if p > 0}
+            ctx.check(sup == am and all(close(d[a], 1 / len(am)) for a in am), 'policy',
+                      lambda: f"after the learner object was trained again, its FIRST result's policy at {s_} is {d}; that result's own Q-values make it uniform over {sorted(am)}",
+                      key='policy/first-result-after-reuse')
     for (s, a), c in cnt.items():
         if c == m - 1:
             ctx.probe('pair_at_m_minus_1_at_end')
